@@ -13,7 +13,7 @@ import json
 import os
 
 from . import common
-from .common import AnalysisBroken, strip, walk, calls, render
+from .common import AnalysisBroken, strip, walk, calls, render, const_value
 
 EXPLANATION_D4 = (
     " D4 (state carried across the files of one invocation): every file-scope or function-static integer variable of the compiler "
@@ -121,6 +121,90 @@ def digest(f):
                 cmpf = strip(c["c"][4])
                 out["sorts"].append((f.unit, name, cmpf["n"] if cmpf is not None and cmpf["k"] == "DeclRefExpr" else None, c["l"]))
     return out
+
+
+def d5(rep):
+    """The object-file header is built in memory by libNewHeader and written field by field by libPutHeader.  The store the Lib
+    lives in is not cleared, so every field the writer emits, for every index it emits, must have been assigned by the
+    initialiser; otherwise the bytes of the .ao depend on what the allocator handed out."""
+    f = common.extract("lib.c", trees=["libNewHeader", "libPutHeader"])
+
+    def table_fields(fn, writes):
+        """{(array field, element field or None): (lo, hi)} for accesses inside `for (i = lo; i < hi; ...)` loops."""
+        out = {}
+        for x in walk(fn["body"]):
+            if x["k"] != "ForStmt" or len(x["c"]) < 4:
+                continue
+            init, cond = x["c"][0], x["c"][1]
+            if init is None or cond is None or init["k"] != "BinaryOperator" or cond["k"] != "BinaryOperator" or cond["op"] != "<":
+                raise AnalysisBroken("%s: loop shape not recognised" % fn["n"])
+            lo, hi = const_value(init["c"][1]), const_value(cond["c"][1])
+            var = (strip(init["c"][0]) or {}).get("n")
+            if lo is None or hi is None or var is None:
+                raise AnalysisBroken("%s: loop bounds are not constants" % fn["n"])
+            body = x["c"][3]
+            nodes = []
+            if writes:
+                for y in walk(body):
+                    if y["k"] == "BinaryOperator" and y["op"] == "=":
+                        nodes.append(strip(y["c"][0]))
+            else:
+                nodes = [y for y in walk(body) if y["k"] in ("MemberExpr", "ArraySubscriptExpr")]
+            for y in nodes:
+                if y is None:
+                    continue
+                elem = None
+                if y["k"] == "MemberExpr":
+                    inner = strip(y["c"][0])
+                    if inner is not None and inner["k"] == "ArraySubscriptExpr":
+                        elem, y = y["n"], inner
+                if y["k"] != "ArraySubscriptExpr":
+                    continue
+                arr, idx = strip(y["c"][0]), strip(y["c"][1])
+                if arr is None or arr["k"] != "MemberExpr" or idx is None or idx.get("n") != var:
+                    continue
+                if not writes and elem is None and arr["n"] == "Section":
+                    continue            # the bare subscript under a member access
+                k = (arr["n"], elem)
+                a, b = out.get(k, (lo, hi))
+                out[k] = (min(a, lo), max(b, hi))
+        return out
+    init = table_fields(f.func("libNewHeader"), True)
+    put = table_fields(f.func("libPutHeader"), False)
+    if len(put) < 3:
+        raise AnalysisBroken("libPutHeader: the per-section fields it writes were not recognised (%s)" % sorted(put))
+    where = "lib.c:%d (libNewHeader)" % f.func("libNewHeader")["l"]
+    for k in sorted(put, key=str):
+        key = "header-field-initialised:%s%s" % (k[0], "." + k[1] if k[1] else "")
+        lo, hi = put[k]
+        if k not in init:
+            rep.violation("D5", key, where, "libPutHeader writes %s[i]%s for i in [%d,%d) but libNewHeader never assigns it: the header "
+                          "bytes of sections that are not used are whatever the allocator returned, so two compilations of one "
+                          "source can differ" % (k[0], "." + k[1] if k[1] else "", lo, hi))
+        elif init[k][0] > lo or init[k][1] < hi:
+            rep.violation("D5", key, where, "libPutHeader writes %s for i in [%d,%d) but libNewHeader initialises only [%d,%d)"
+                          % (key.split(":")[1], lo, hi, init[k][0], init[k][1]))
+        else:
+            rep.ok("D5", key)
+    # scalar header fields
+    def scalars(fn, writes):
+        out = set()
+        for y in walk(fn["body"]):
+            if writes and not (y["k"] == "BinaryOperator" and y["op"] == "="):
+                continue
+            t = strip(y["c"][0]) if writes else y
+            if t is not None and t["k"] == "MemberExpr" and (strip(t["c"][0]) or {}).get("n") == "hdr" and t["n"] not in ("Section", "Index"):
+                out.add(t["n"])
+        return out
+    si, sp = scalars(f.func("libNewHeader"), True), scalars(f.func("libPutHeader"), False)
+    if len(sp) < 4:
+        raise AnalysisBroken("libPutHeader: scalar header fields not recognised (%s)" % sorted(sp))
+    for fld in sorted(sp):
+        key = "header-field-initialised:" + fld
+        if fld in si:
+            rep.ok("D5", key)
+        else:
+            rep.violation("D5", key, where, "libPutHeader writes hdr.%s but libNewHeader does not assign it" % fld)
 
 
 def run(tier, only=None):
@@ -255,6 +339,7 @@ def run(tier, only=None):
                           "batch to the next; it is not one of the counters confirmed never to reach an output or a message, so "
                           "`aldor a.as b.as` and `aldor b.as` can write different files for b.as" % (v, ", ".join(f for _, f in sites[:3])))
     rep.floor("monotone never-reset integer counters examined", nc, 15)
+    d5(rep)
     rep.assumptions += ["calls through function pointers are not followed in D3",
                         "lisort is the only sort routine applied to output-relevant data (no qsort in the compiler units)"]
     return rep
